@@ -16,8 +16,10 @@ from .. import canon, core, e1, refcodec
 from ..world import MCAST, Choice, RandomSeam, make_sd, timings
 
 C = 2.0 ** -7
-DEST = {"M": None, "P1": ("192.0.2.121", 30490), "P2": ("192.0.2.122", 30490)}
-ADDR2NAME = {MCAST: "M", DEST["P1"]: "P1", DEST["P2"]: "P2"}
+DEST = {"M": None, "P1": ("192.0.2.121", 30490), "P2": ("192.0.2.122", 30490),
+        # destinations that differ from another one in a single component: scope id (P3 / P4), port (P5 / P1)
+        "P3": ("fe80::123", 30490, 0, 2), "P4": ("fe80::123", 30490, 0, 3), "P5": ("192.0.2.121", 30491)}
+ADDR2NAME = {(MCAST if v is None else v): k for k, v in DEST.items()}
 KINDS = ("offer", "stopoffer", "suback")
 
 
@@ -45,7 +47,7 @@ def expected_wire(tagsid, tag):
 
 class Model:
     def __init__(self):
-        self.inflight = {"M": [], "P1": [], "P2": []}  # (tag, queue time)
+        self.inflight = {n: [] for n in DEST}  # (tag, queue time)
         self.started = True
         self.real_owed = []  # entries the real instances owe to the wire: (destination, instance, is StopOffer, optional)
         self.ready = True  # instances running and past their first offer ("starting": started, first offer not yet idle)
@@ -243,6 +245,8 @@ def configs(ctx):
                                          dests=("M", "P1"), deviations=0, fine=0), ctx.pick(3, 4)))
     out.append(("timeout-c-lifecycle", dict(sids=s, advs=advs, timeout=C, bursts=(), dests=("M", "P1"), lifecycle=True,
                                             deviations=1, fine=1), ctx.pick(4, 5)))
+    out.append(("timeout-c-aliased-destinations", dict(sids=s, advs=(None, "half", "next"), timeout=C, bursts=(),
+                                                       dests=("P3", "P4", "P1", "P5"), deviations=0, fine=0), ctx.pick(3, 4)))
     out.append(("timeout-0", dict(sids=s, advs=(None,), timeout=0, bursts=(17,), dests=("M", "P1", "P2"), lifecycle=True,
                                   deviations=1, fine=0), CLOSURE))
     return out
